@@ -160,6 +160,23 @@ m("C-11", "C03", "", ("x/sao/keeper/expired_shard.go", "\tstore := prefix.NewSto
 m("C-11b", "C11", "", ("x/sao/keeper/expired_shard.go", "\tstore := prefix.NewStore(ctx.KVStore(k.storeKey), types.KeyPrefix(types.ExpiredShardKeyPrefix))\n", "\tstore := k.expiredShardStore(ctx)\n"),
   ("x/sao/keeper/expired_shard.go", "// SetExpiredShard set", "func (k Keeper) expiredShardStore(ctx sdk.Context) prefix.Store {\n\treturn prefix.NewStore(ctx.KVStore(k.storeKey), types.KeyPrefix(types.ExpiredShardKeyPrefix))\n}\n\n// SetExpiredShard set"))
 
+
+# ---------------------------------------------------------------- round-3 rules: hand-made variants and faithful controls
+m("M-nilarg", "C02", "L2-nilarg", ("x/node/keeper/hooks.go", "if accAddr != nil && !sharesBeforeModified.IsZero() {", "if !sharesBeforeModified.IsZero() || accAddr != nil {"))
+m("M-fresh", "C04", "T-append-fresh", ("x/sao/keeper/msg_server_complete.go", "\t\tshard.CreatedAt = uint64(ctx.BlockHeight())\n\t\tshard.Duration = order.Duration\n", "\t\tshard.Duration = order.Duration\n"))
+m("M-aliaskey", "C05", "T-aliaskey", ("x/model/keeper/data_management.go", "\t\tkey := fmt.Sprintf(\"%s-%s-%s\", metadata.Owner, metadata.Alias, metadata.GroupId)\n\t\tk.RemoveModel(ctx, key)\n\t\treturn", "\t\tkey := fmt.Sprintf(\"%s-%s-%s\", metadata.Owner, metadata.DataId, metadata.GroupId)\n\t\tk.RemoveModel(ctx, key)\n\t\treturn"))
+m("M-aliaskey13", "C13", "T-aliaskey", ("x/model/keeper/data_management.go", "\t\tkey := fmt.Sprintf(\"%s-%s-%s\", metadata.Owner, metadata.Alias, metadata.GroupId)\n\t\tk.RemoveModel(ctx, key)\n\t\treturn", "\t\tkey := fmt.Sprintf(\"%s-%s\", metadata.Owner, metadata.Alias)\n\t\tk.RemoveModel(ctx, key)\n\t\treturn"))
+m("M-pool6", "C06", "T-couple", ("x/node/keeper/msg_server_add_vstorage.go", "\tpool.TotalStorage += size.Int64()\n", "\tpool.TotalStorage += int64(msg.Size_)\n"))
+m("M-pool8", "C08", "T-couple", ("x/node/keeper/msg_server_add_vstorage.go", "\tpool.TotalStorage += size.Int64()\n", "\tpool.TotalStorage += int64(msg.Size_)\n"))
+m("M-relown", "C07", "G-release-own", ("x/model/keeper/data_management.go", "\t\tif shard.Status == ordertypes.ShardCompleted && shard.OrderId == order.Id {\n\t\t\terr := k.node.ShardRelease(", "\t\tif shard.Status == ordertypes.ShardCompleted {\n\t\t\terr := k.node.ShardRelease("))
+m("M-pairswap", "C16", "E6-pair", ("x/order/genesis.go", "k.SetOrderCount(ctx, genState.OrderCount)", "k.SetOrderCount(ctx, genState.ShardCount)"), ("x/order/genesis.go", "k.SetShardCount(ctx, genState.ShardCount)", "k.SetShardCount(ctx, genState.OrderCount)"))
+m("M-pairswap18", "C18", "E6-pair", ("x/order/genesis.go", "k.SetOrderCount(ctx, genState.OrderCount)", "k.SetOrderCount(ctx, genState.ShardCount)"), ("x/order/genesis.go", "k.SetShardCount(ctx, genState.ShardCount)", "k.SetShardCount(ctx, genState.OrderCount)"))
+m("M-ratio", "C20", "G-share-ratio", ("x/node/keeper/super.go", "ratio := delegate.Shares.Quo(totalShares)", "ratio := delegate.Shares.Quo(validator.DelegatorShares)"))
+m("M-period", "C19", "CAP-period", ("x/order/keeper/shard_management.go", "\t\tStatus:  types.ShardWaiting,\n", "\t\tStatus:  types.ShardWaiting,\n\t\tCreatedAt: uint64(ctx.BlockHeight()),\n"))
+m("C-12", "C05", "", ("x/model/keeper/data_management.go", "func (k Keeper) NewMeta(", "func modelKey(metadata types.Metadata) string {\n\treturn fmt.Sprintf(\"%s-%s-%s\", metadata.Owner, metadata.Alias, metadata.GroupId)\n}\n\nfunc (k Keeper) NewMeta("),
+  ("x/model/keeper/data_management.go", "\tkey := fmt.Sprintf(\"%s-%s-%s\", metadata.Owner, metadata.Alias, metadata.GroupId)\n\n\t_, found_model := k.GetModel(ctx, key)", "\tkey := modelKey(metadata)\n\n\t_, found_model := k.GetModel(ctx, key)"),
+  ("x/model/keeper/data_management.go", "\t\tkey := fmt.Sprintf(\"%s-%s-%s\", metadata.Owner, metadata.Alias, metadata.GroupId)\n\t\tk.RemoveModel(ctx, key)\n\t\treturn", "\t\tk.RemoveModel(ctx, modelKey(metadata))\n\t\treturn"))
+
 # patch-file mutants / controls: (id, property, expected rule or "" for silent, patch path)
 P = [
  ("C-5", "C19", "", "/verif/tools/controls/C-5-faithful-helper-reportfaults.diff"),
@@ -204,6 +221,25 @@ P = [
  ("S-C19-a2", "C19", "G-fish", "/verif/seeded/C19-a2/patch.diff"),
  ("S-C20-a2", "C20", "G-demote", "/verif/seeded/C20-a2/patch.diff"),
  ("C-6", "C18", "", "/verif/tools/controls/C-6-iterate-callback-export.diff"),
+ ("S-C02-a3", "C02", "L2-nilarg", "/verif/seeded/C02-a3/patch.diff"),
+ ("S-C03-a3", "C03", "D3-startup", "/verif/seeded/C03-a3/patch.diff"),
+ ("S-C04-a3", "C04", "T-append-fresh", "/verif/seeded/C04-a3/patch.diff"),
+ ("S-C05-a3", "C05", "T-aliaskey", "/verif/seeded/C05-a3/patch.diff"),
+ ("S-C06-a3", "C06", "T-couple", "/verif/seeded/C06-a3/patch.diff"),
+ ("S-C07-a3", "C07", "G-release-own", "/verif/seeded/C07-a3/patch.diff"),
+ ("S-C08-a3", "C08", "E6-all", "/verif/seeded/C08-a3/patch.diff"),
+ ("S-C09-a3", "C09", "G-sigpath", "/verif/seeded/C09-a3/patch.diff"),
+ ("S-C10-a3", "C10", "T-loopvar", "/verif/seeded/C10-a3/patch.diff"),
+ ("S-C11-a3", "C11", "T-sched-shard", "/verif/seeded/C11-a3/patch.diff"),
+ ("S-C12-a3", "C12", "G-elig-2", "/verif/seeded/C12-a3/patch.diff"),
+ ("S-C13-a3", "C13", "CAP-sched-delete", "/verif/seeded/C13-a3/patch.diff"),
+ ("S-C14-a3", "C14", "T-accum-scope", "/verif/seeded/C14-a3/patch.diff"),
+ ("S-C15-a3", "C15", "G-replica", "/verif/seeded/C15-a3/patch.diff"),
+ ("S-C16-a3", "C16", "E6-pair", "/verif/seeded/C16-a3/patch.diff"),
+ ("S-C17-a3", "C17", "G-bind", "/verif/seeded/C17-a3/patch.diff"),
+ ("S-C18-a3", "C18", "E6-pair", "/verif/seeded/C18-a3/patch.diff"),
+ ("S-C19-a3", "C19", "CAP-period", "/verif/seeded/C19-a3/patch.diff"),
+ ("S-C20-a3", "C20", "G-share-ratio", "/verif/seeded/C20-a3/patch.diff"),
 ]
 for (id, prop, rule, path) in P:
     M.append((id, prop, rule, [("@patch", path, "")]))
